@@ -381,41 +381,97 @@ def evaluate(spec, args, ts, why):
     return info
 
 
+def evaluate_pseudo(spec, args, ts, why):
+    """@latent / @acc: reach = some candidate streamed with latent_time off has exactly this value"""
+    a = args[0]
+    text = art_text(a)
+    if text is None:
+        return {"reproduced": False, "reach": "no surface form for this value"}
+    info = {"text": text, "ts": ts.isoformat(), "rule": spec["rule"], "kernel_failure": why}
+    effects = []
+    try:
+        off = [c for c in CT.ctparse_gen(text, ts=ts, timeout=0, max_stack_depth=0, latent_time=False) if c is not None]
+    except Exception as e:
+        off = []
+        effects.append(("C01", "exception escapes ctparse_gen: %s: %s" % (type(e).__name__, e)))
+    if not any(val(c.resolution) == val(a) for c in off):
+        info["reach"] = "no candidate with this value is streamed"
+        info["reproduced"] = False
+        return info
+    info["reach"] = "reached"
+    norm_len = len(CT._preprocess_string(text))
+    for latent in (True, False):
+        try:
+            for c in CT.ctparse_gen(text, ts=ts, timeout=0, max_stack_depth=0, latent_time=latent):
+                if c is None:
+                    continue
+                for d in candidate_defects(c.resolution, norm_len):
+                    effects.append(("C02", "latent_time=%s candidate %r: %s" % (latent, c.resolution, d)))
+        except Exception as e:
+            effects.append(("C01", "exception escapes ctparse_gen: %s: %s" % (type(e).__name__, e)))
+    info["effects"] = [list(e) for e in effects[:6]]
+    want = {"C01": ("C01",), "C02": ("C02", "C01")}.get(PROP)
+    info["reproduced"] = any(want is None or e[0] in want for e in effects)
+    return info
+
+
+GRID = {"year": [2020, 2024, 2023, 2021], "hour": [0, 1, 9, 11, 12, 13, 14, 23], "minute": [0, 1, 30, 59],
+        "day": [1, 15, 28, 29, 30, 31], "month": [1, 2, 4, 12]}
+
+
 def lift_step(spec, p, args, why, ts):
-    """try the solver's values, then friendlier substitutes that still fail on the kernel"""
+    """try the solver's values, then nearby friendlier values that still fail on the kernel
+    (years 2020.., plain parts of day, round clock values) until one is reachable by a text"""
+    import itertools
     import vq.harness.h_wf as H
-    first = evaluate(spec, args, ts, why)
+    ev = evaluate_pseudo if spec["rule"].startswith("@") else evaluate
+    first = ev(spec, args, ts, why)
     if first.get("reproduced"):
         return first
     tried = [first]
-    # substitutions: years -> 2020/2024/2023, parts of day -> plain ones, ts unchanged
-    cands = []
     p = list(p)
-    year_slots, pod_slots = [], []
+    slots = {}          # field -> [param index]
     for ent in H.LAYOUT:
-        for slots in ([ent.get("slots")] if ent["k"] == "T" else [ent.get("a"), ent.get("b")] if ent["k"] == "I" else []):
-            if slots:
-                if "year" in slots:
-                    year_slots.append(slots["year"])
-                if "POD" in slots:
-                    pod_slots.append(slots["POD"])
+        for sl in ([ent.get("slots")] if ent["k"] == "T" else [ent.get("a"), ent.get("b")] if ent["k"] == "I" else []):
+            if sl:
+                for f, i in sl.items():
+                    slots.setdefault(f, []).append(i)
     friendly_pods = [H.PODS.index(x) for x in ("morning", "afternoon", "evening", "night", "earlymorning") if x in H.PODS]
-    for y in (2020, 2024, 2023, 2021):
-        q = list(p)
-        for s in year_slots:
-            q[s] = y
-        cands.append(q)
-    for base in list(cands) + [p]:
-        for fp in friendly_pods:
+    cands = []
+    bases = [list(p)]
+    if slots.get("year"):
+        for y in GRID["year"]:
+            q = list(p)
+            for s_ in slots["year"]:
+                q[s_] = y
+            bases.append(q)
+    if slots.get("POD"):
+        for base in list(bases):
+            for fp in friendly_pods:
+                q = list(base)
+                for s_ in slots["POD"]:
+                    q[s_] = fp
+                bases.append(q)
+    cands += bases[1:]
+    # single- and pairwise substitutions on clock / day / month slots
+    small = [(i, v) for f in ("hour", "minute", "day", "month") for i in slots.get(f, []) for v in GRID[f]]
+    for base in bases[:6]:
+        for (i, v) in small:
             q = list(base)
-            for s in pod_slots:
-                q[s] = fp
-            if q != p:
+            q[i] = v
+            cands.append(q)
+        for (i, v), (j, w) in itertools.combinations(small, 2):
+            if i != j:
+                q = list(base)
+                q[i], q[j] = v, w
                 cands.append(q)
-    seen = set()
+                if len(cands) > 4000:
+                    break
+    seen = {tuple(p)}
+    lifted = 0
     for q in cands:
         tq = tuple(q)
-        if tq in seen or tq == tuple(p):
+        if tq in seen:
             continue
         seen.add(tq)
         try:
@@ -424,14 +480,15 @@ def lift_step(spec, p, args, why, ts):
             ok, why2 = H.run_step(tq)
         except Exception:
             continue
-        if ok:
+        if ok or why2.split(":")[0] != why.split(":")[0]:
             continue
-        r = evaluate(spec, H.build_args(tq), ts, why2)
+        r = ev(spec, H.build_args(tq), ts, why2)
+        lifted += 1
         r["substituted_params"] = list(tq)
         tried.append(r)
         if r.get("reproduced"):
             return r
-        if len(tried) > 12:
+        if lifted > 40:
             break
     first["alternatives_tried"] = len(tried) - 1
     first["reach_of_alternatives"] = [t.get("reach") for t in tried[1:6]]
